@@ -323,10 +323,13 @@ _KNOWN_UNBUILDABLE = {
 }
 
 
-def _make_adapter(name, cls, cf=None, tries=40):
+_SPLIT_SCHEDS = (None, None, 0, 1, 2, 3, 4, 5)     # scheduler variants tried for the split-caller designs
+
+
+def _make_adapter(name, cls, cf=None, tries=40, sched=None):
     import c17_adapters
     for _ in range(tries):
-        d = c17_adapters.make(name, cls)
+        d = c17_adapters.make(name, cls, sched)
         if cf is None or d.clear_first() is None or d.clear_first() == cf:
             return d
     return None
@@ -367,7 +370,7 @@ def never_ready_probe(name, cls):
 
 def _adapter_walk_job(job):
     import c17_adapters
-    name, kind, cls, cf = job
+    name, kind, cls, cf, sched = job
     try:
         dead = never_ready_probe(name, cls)
     except c17_adapters.Unbuildable as e:
@@ -375,7 +378,7 @@ def _adapter_walk_job(job):
     if dead is not None:
         return {"name": name, "kind": kind, "cls": cls, "never_ready": dead}
     try:
-        first = _make_adapter(name, cls, cf)
+        first = _make_adapter(name, cls, cf, sched=sched)
     except c17_adapters.Unbuildable as e:
         return {"name": name, "kind": kind, "unbuildable": str(e)}
     if first is None:
@@ -387,13 +390,13 @@ def _adapter_walk_job(job):
     def factory():
         if box:
             return box.pop()
-        d = _make_adapter(name, cls, cfx)
+        d = _make_adapter(name, cls, cfx, sched=sched)
         if d is None:
             raise MachineryError("%s: could not rebuild the design with the same block order" % name)
         return d
 
     r = walk(factory, _AG[(kind, cfx)], A_INIT, a_step, a_diff, name, perturb=a_perturb, obs_fields=A_FIELDS)
-    r.update({"kind": kind, "cf": cfx, "signames": first.signames(), "sched": first.sched})
+    r.update({"kind": kind, "cf": cfx, "signames": first.signames(), "sched": first.sched, "variant": sched})
     return r
 
 
@@ -412,10 +415,11 @@ def adapter_walks(res, cat):
     jobs = []
     for e in cat:
         for cf in ((True, False) if e.kind == "fl2rtl" else (None,)):
-            jobs.append((e.name, e.kind, e.cls, cf))
+            for k, sched in enumerate(_SPLIT_SCHEDS if e.name.startswith("split.") else (None,)):
+                jobs.append((e.name, e.kind, e.cls, cf, sched))
     with _pool() as ex:
         results = list(ex.map(_adapter_walk_job, jobs))
-    table, skipped, orders, observations = {}, [], {}, {}
+    table, skipped, orders, observations, split_scheds = {}, [], {}, {}, {}
     for r in results:
         name = r["name"]
         if "unbuildable" in r:
@@ -444,7 +448,9 @@ def adapter_walks(res, cat):
             orders.setdefault(name, {})["clear-first" if r["cf"] else "caller-first"] = "walked"
         res.add_evals(r["cycles"])
         res.count("adapter_spec_to_code_transitions_replayed", r["edges"])
-        res.distinct(("adapter-walk", name, r["cf"]))
+        res.distinct(("adapter-walk", name, r["cf"], tuple(r["sched"])))
+        if name.startswith("split."):
+            split_scheds.setdefault(name, set()).add(" ".join(x for x in r["sched"] if not x.startswith("s_")))
         table["%s%s" % (name, "" if r["kind"] != "fl2rtl" else ("/clear-first" if r["cf"] else "/caller-first"))] = [
             r["product_states"], r["edges"]]
         for v in r["violations"]:
@@ -464,6 +470,7 @@ def adapter_walks(res, cat):
     res.note("adapter_walks_productstates_edges", table)
     res.note("adapters_not_buildable_on_this_tree", skipped)
     res.note("adapter_observations", observations)
+    res.note("split_caller_adapter_schedules_walked", {k: sorted(v) for k, v in split_scheds.items()})
     res.note("fl2rtl_block_orders", orders)
     ok = [r for r in results if "edges" in r]
     if ok:
@@ -709,7 +716,7 @@ def _adapter_trace_job(job):
     import c17_adapters
     tag, name, kind, cls, cap, depth, idx, length = job
     try:
-        dut = c17_adapters.make(name, cls)
+        dut = c17_adapters.make(name, cls, _SPLIT_SCHEDS[(idx + 1) % len(_SPLIT_SCHEDS)] if name.startswith("split.") else None)
     except c17_adapters.Unbuildable as e:
         return {"dut": name, "idx": idx, "unbuildable": str(e)}
     cf = dut.clear_first()
